@@ -192,44 +192,60 @@ func c03unquoteAs(c *core.Ctx, R string) {
 		return
 	}
 	tag := core.ExprStr(esc.Tag)
-	table := map[int64]string{} // escape char -> "id" | "const N" | "u"
-	def := ""
-	for _, cl := range esc.Body.List {
-		cc := cl.(*ast.CaseClause)
+	// the switch is evaluated once per escape character: what is stored into the output (the character
+	// itself / a constant), whether getu4 decodes it, or whether the function gives up
+	table := map[int64]string{}
+	def := "reject"
+	for b := int64(0); b < 256; b++ {
+		b := b
+		e := &miniEval{pk: u.Pkg, env: map[string]int64{"nil": 0}, ctx: c}
 		action := "?"
-		ast.Inspect(cc, func(n ast.Node) bool {
-			switch x := n.(type) {
-			case *ast.AssignStmt:
-				if len(x.Lhs) == 1 && len(x.Rhs) == 1 {
-					if _, isIdx := x.Lhs[0].(*ast.IndexExpr); isIdx && action == "?" {
-						if core.ExprStr(x.Rhs[0]) == tag {
-							action = "id"
-						} else if v := core.ConstOf(u.Pkg, x.Rhs[0]); v != nil {
-							action = "const " + v.ExactString()
-						}
+		e.hook = func(x ast.Expr) (int64, bool) {
+			if core.ExprStr(x) == tag {
+				return b, true
+			}
+			switch y := x.(type) {
+			case *ast.Ident:
+				if _, has := e.env[y.Name]; !has {
+					if cv := core.ConstOf(u.Pkg, y); cv == nil {
+						return 1, true // r, w and other counters: any value
 					}
 				}
 			case *ast.CallExpr:
-				if core.ExprStr(x.Fun) == "getu4" && action == "?" {
-					action = "u"
+				if core.ExprStr(y.Fun) == "getu4" {
+					if action == "?" {
+						action = "u"
+					}
+					return 0x41, true
 				}
-			case *ast.ReturnStmt:
-				if action == "?" {
-					action = "reject"
+				if core.ExprStr(y.Fun) == "len" {
+					return 100, true
+				}
+				if tv, ok := u.Pkg.TypesInfo.Types[y.Fun]; ok && tv.IsType() {
+					return 0, false
+				}
+				return 1, true
+			}
+			return 0, false
+		}
+		e.onStore = func(lhs, rhs ast.Expr) {
+			if _, isIdx := ast.Unparen(lhs).(*ast.IndexExpr); isIdx && action == "?" {
+				v := e.expr(rhs)
+				if core.ExprStr(ast.Unparen(rhs)) == tag || (v == b && core.ConstOf(u.Pkg, rhs) == nil && b > 13) {
+					action = "id"
+				} else {
+					action = core.F("const %d", v)
 				}
 			}
-			return true
-		})
-		if cc.List == nil {
-			def = action
-			continue
 		}
-		for _, e := range cc.List {
-			if v := core.ConstOf(u.Pkg, e); v != nil {
-				n, _ := constantInt64(v)
-				table[n] = action
-			}
+		st, _ := e.run([]ast.Stmt{esc})
+		if action == "?" && st == miniReturn {
+			action = "reject"
 		}
+		if e.unknown != "" && action == "?" {
+			action = "undecided: " + e.unknown
+		}
+		table[b] = action
 	}
 	want := map[int64]string{'"': "id", '\\': "id", '/': "id", 'b': "const 8", 'f': "const 12", 'n': "const 10", 'r': "const 13", 't': "const 9", 'u': "u"}
 	for b := int64(0); b < 256; b++ {
